@@ -109,13 +109,25 @@ def run_one_case(acc, c):
             k = evaluate(acc, c, d, ns, p, R, X, T)
             acc.mark_nontrivial((repr(c), repr((R, X, T))))
         return
-    for Ri in subsets_upto(n, c["kmax"]):
-        for Xi in subsets_upto(n, c["kmax"]):
-            for Ti in subsets_upto(n, c["kmax"]):
-                if has_setup:
+    ids = p.ids()
+    triples = [(Ri, Xi, Ti) for Ri in subsets_upto(n, c["kmax"]) for Xi in subsets_upto(n, c["kmax"]) for Ti in subsets_upto(n, c["kmax"])]
+    if has_setup and not c.get("warm", 0):
+        triples.reverse()  # one instance for the whole sequence: small selections (skipping setup nodes) first, the whole DAG last
+    for Ri, Xi, Ti in triples:
+        if True:
+            if True:
+                # setup variants: 'warm' ones are rebuilt for every selection; the others keep ONE instance over the whole
+                # sequence of executors (the reference tracks which setup nodes have been computed so far)
+                if has_setup and c.get("warm", 0):
                     fresh()
                 R, X, T = (write_aliases(s, c["tags"], c["form"], n) for s in (Ri, Xi, Ti))
-                k = evaluate(acc, c, d, ns, p, R, X, T, pre=pre)
+                info = {}
+                k = evaluate(acc, c, d, ns, p, R, X, T, pre=pre, info=info)
+                if has_setup and not c.get("warm", 0) and info.get("outcome") == "return":
+                    for nid, ser in info["entered"].items():
+                        i = ids.index(nid) if nid in ids else None
+                        if i is not None and p.nodes[i].setup and i not in pre:
+                            pre[i] = ser
                 stats[k] = stats.get(k, 0) + 1
                 if k in ("run", "valueerror") and (Ri is not None) + (Xi is not None) + (Ti is not None) >= 2:
                     acc.mark_nontrivial((repr(c), repr((Ri, Xi, Ti))))
